@@ -129,6 +129,8 @@ enum ExecutionState { Inactive, Active, Suspended }
 // ---- errors: opaque, with a ghost stack trace (C12) and a ghost "is a timeout" flag (C08)
 #[verifier::external_body]
 struct Error { _p: u8 }
+// `"Overflow of the current frame's register stack".into()` (a string converted into an Error), rule R5
+#[verifier::external_body] fn register_overflow_error() -> Error { unimplemented!() }
 struct InstructionFrame { chunk: Ptr<Chunk>, instruction: u32 }
 type Result<T> = core::result::Result<T, Error>;
 
@@ -690,9 +692,14 @@ UNIT = Unit(
 
         # ------------------------------------------------------------------ step B: entry points
         Fn(F, "impl KotoVm :: fn next_register", props=("C07", "C06"),
+           subst=[('Err("Overflow of the current frame\'s register stack".into())', "Err(register_overflow_error())", 1)],
            spec=r"""
     requires self.wf(),
-    ensures self.window_fits_u8() ==> r as int == self.registers@.len() - self.register_base,   // @next_register_is_window_size
+    ensures
+        // the size of the current register window, or an error when it or one of the `additional` registers that
+        // follow could not be addressed by a u8 (finding F37: this used to be an unchecked `as u8`)
+        (r is Ok) == (self.registers@.len() - self.register_base + additional <= 255),                        // @overflow_of_the_window_is_an_error
+        r matches Ok(x) ==> x as int == self.registers@.len() - self.register_base,                            // @next_register_is_window_size
 """),
         Fn(F, "impl KotoVm :: fn truncate_registers", props=("C07", "C06"),
            spec=r"""
@@ -896,7 +903,6 @@ UNIT = Unit(
            spec=r"""
     requires
         old(self).wf(),
-        old(self).window_fits_u8(),                                  // what new_frame_base() checks at run time
         old(self).registers@.len() < 0x4000_0000_0000_0000,          // memory bound (assumption)
     ensures
         // C07: on EVERY exit path (value, error, timeout) no frame, register or base is left behind
@@ -904,7 +910,8 @@ UNIT = Unit(
         !(final(self).execution_state is Suspended) ==> Self::stack_equiv(final(self).call_stack@, old(self).call_stack@),   // @no_frame_left_behind
         !(final(self).execution_state is Suspended) ==> final(self).register_base == old(self).register_base,   // @register_base_restored
         !(final(self).execution_state is Suspended) ==> final(self).registers@.len() == old(self).registers@.len(),   // @no_register_left_behind
-        !(final(self).execution_state is Active),                                                               // @state_not_active_on_exit
+        // (or nothing happened at all: the register window of the calling frame has no room for the new frame's base, F37)
+        !(final(self).execution_state is Active) || (r is Err && *final(self) == *old(self)),                 // @state_not_active_on_exit
         // C07/C04: a failed run leaves no half-built list, tuple or string behind
         r is Err ==> final(self).sequence_builders@.len() <= old(self).sequence_builders@.len()
                   && final(self).string_builders@.len() <= old(self).string_builders@.len(),                    // @no_builder_left_behind_on_error
@@ -984,10 +991,9 @@ UNIT = Unit(
         !(final(self).execution_state is Suspended) ==> final(self).register_base == old(self).register_base,   // @register_base_restored
         // (registers above the frame's own are transient inside an instruction; nothing is claimed about them)
 """),
-        Fn(F, "impl KotoVm :: fn run_binary_op", props=("C07",), spec=r"""
+        Fn(F, "impl KotoVm :: fn run_binary_op", props=("C07", "C06"), spec=r"""
     requires
         old(self).wf(),
-        old(self).registers@.len() - old(self).register_base + 3 <= 255,
         old(self).registers@.len() < 0x3000_0000_0000_0000,
         old(self).registers@.len() >= old(self).min_frame_registers,         // the current frame's registers exist (NewFrame)
     ensures
@@ -998,10 +1004,9 @@ UNIT = Unit(
         !(final(self).execution_state is Suspended) ==> final(self).register_base == old(self).register_base,   // @register_base_restored
         !(final(self).execution_state is Suspended) ==> final(self).registers@.len() == old(self).registers@.len(),   // @no_register_left_behind
 """),
-        Fn(F, "impl KotoVm :: fn run_binary_op_inner", props=("C07",), spec=r"""
+        Fn(F, "impl KotoVm :: fn run_binary_op_inner", props=("C07", "C06"), spec=r"""
     requires
         old(self).wf(),
-        old(self).registers@.len() - old(self).register_base + 3 <= 255,    // the operation's registers fit the u8 window
         old(self).registers@.len() < 0x3000_0000_0000_0000,
         old(self).registers@.len() >= old(self).min_frame_registers,         // the current frame's registers exist (NewFrame)                  // memory bound (assumption)
     ensures
@@ -1014,10 +1019,9 @@ UNIT = Unit(
         !(final(self).execution_state is Suspended) ==> final(self).registers@.len() >= old(self).registers@.len(),   // @registers_not_below_entry
         r is Ok && !(final(self).execution_state is Suspended) ==> final(self).registers@.len() == old(self).registers@.len(),   // @ok_exit_is_clean
 """),
-        Fn(F, "impl KotoVm :: fn run_unary_op", props=("C07",), spec=r"""
+        Fn(F, "impl KotoVm :: fn run_unary_op", props=("C07", "C06"), spec=r"""
     requires
         old(self).wf(),
-        old(self).registers@.len() - old(self).register_base + 2 <= 255,
         old(self).registers@.len() < 0x3000_0000_0000_0000,
         old(self).registers@.len() >= old(self).min_frame_registers,         // the current frame's registers exist (NewFrame)
     ensures
@@ -1031,10 +1035,9 @@ UNIT = Unit(
         # ASSUMED (external_body): Verus 0.2026.09.13 loses the state of `self` at the `return` in the arm
         # that follows a guarded match arm which mutates self (reproduced on a 20-line example,
         # DESIGN section 9); the body is therefore not verified, only its contract is used by the wrapper
-        Fn(F, "impl KotoVm :: fn run_unary_op_inner", props=("C07",), external_body=True, subst=[("&NextBack.into()", "&meta_key_next_back()", 2)], spec=r"""
+        Fn(F, "impl KotoVm :: fn run_unary_op_inner", props=("C07", "C06"), external_body=True, subst=[("&NextBack.into()", "&meta_key_next_back()", 2)], spec=r"""
     requires
         old(self).wf(),
-        old(self).registers@.len() - old(self).register_base + 2 <= 255,    // the operation's registers fit the u8 window
         old(self).registers@.len() < 0x3000_0000_0000_0000,
         old(self).registers@.len() >= old(self).min_frame_registers,         // the current frame's registers exist (NewFrame)                  // memory bound (assumption)
     ensures
@@ -1047,10 +1050,9 @@ UNIT = Unit(
         !(final(self).execution_state is Suspended) ==> final(self).registers@.len() >= old(self).registers@.len(),   // @registers_not_below_entry
         r is Ok && !(final(self).execution_state is Suspended) ==> final(self).registers@.len() == old(self).registers@.len(),   // @ok_exit_is_clean
 """),
-        Fn(F, "impl KotoVm :: fn run_read_op", props=("C07",), spec=r"""
+        Fn(F, "impl KotoVm :: fn run_read_op", props=("C07", "C06"), spec=r"""
     requires
         old(self).wf(),
-        old(self).registers@.len() - old(self).register_base + 3 <= 255,
         old(self).registers@.len() < 0x3000_0000_0000_0000,
         old(self).registers@.len() >= old(self).min_frame_registers,         // the current frame's registers exist (NewFrame)
     ensures
@@ -1061,10 +1063,9 @@ UNIT = Unit(
         !(final(self).execution_state is Suspended) ==> final(self).register_base == old(self).register_base,   // @register_base_restored
         !(final(self).execution_state is Suspended) ==> final(self).registers@.len() == old(self).registers@.len(),   // @no_register_left_behind
 """),
-        Fn(F, "impl KotoVm :: fn run_read_op_inner", props=("C07",), spec=r"""
+        Fn(F, "impl KotoVm :: fn run_read_op_inner", props=("C07", "C06"), spec=r"""
     requires
         old(self).wf(),
-        old(self).registers@.len() - old(self).register_base + 3 <= 255,    // the operation's registers fit the u8 window
         old(self).registers@.len() < 0x3000_0000_0000_0000,
         old(self).registers@.len() >= old(self).min_frame_registers,         // the current frame's registers exist (NewFrame)                  // memory bound (assumption)
     ensures
@@ -1077,10 +1078,9 @@ UNIT = Unit(
         !(final(self).execution_state is Suspended) ==> final(self).registers@.len() >= old(self).registers@.len(),   // @registers_not_below_entry
         r is Ok && !(final(self).execution_state is Suspended) ==> final(self).registers@.len() == old(self).registers@.len(),   // @ok_exit_is_clean
 """),
-        Fn(F, "impl KotoVm :: fn run_write_op", props=("C07",), spec=r"""
+        Fn(F, "impl KotoVm :: fn run_write_op", props=("C07", "C06"), spec=r"""
     requires
         old(self).wf(),
-        old(self).registers@.len() - old(self).register_base + 4 <= 255,
         old(self).registers@.len() < 0x3000_0000_0000_0000,
         old(self).registers@.len() >= old(self).min_frame_registers,         // the current frame's registers exist (NewFrame)
     ensures
@@ -1091,10 +1091,9 @@ UNIT = Unit(
         !(final(self).execution_state is Suspended) ==> final(self).register_base == old(self).register_base,   // @register_base_restored
         !(final(self).execution_state is Suspended) ==> final(self).registers@.len() == old(self).registers@.len(),   // @no_register_left_behind
 """),
-        Fn(F, "impl KotoVm :: fn run_write_op_inner", props=("C07",), spec=r"""
+        Fn(F, "impl KotoVm :: fn run_write_op_inner", props=("C07", "C06"), spec=r"""
     requires
         old(self).wf(),
-        old(self).registers@.len() - old(self).register_base + 4 <= 255,    // the operation's registers fit the u8 window
         old(self).registers@.len() < 0x3000_0000_0000_0000,
         old(self).registers@.len() >= old(self).min_frame_registers,         // the current frame's registers exist (NewFrame)                  // memory bound (assumption)
     ensures
